@@ -18,7 +18,7 @@ def alphabet_for(tkw, hc=None):
         for e in ["T21", "T22", "SUS", "OPN", "RM1", "CL"] + (["IP", "T2x"] if rich else []):
             A.append(L.tick(500, e))
         def p(name, **kw):
-            if hc is not None:
+            if hc is not None and L.TEMPLATES[name].get("sel", 1) == 1:
                 kw.setdefault("hc", hc)  # the runner is a handicap line of selection 1
             return L.P(name, trade_kw=dict(tkw), **kw)
         for name in ["XB", "PBn", "FOK", "PBv"] + (["XBp", "PBm", "P2"] if rich else []):
